@@ -22,6 +22,7 @@ mod c17;
 mod c18;
 mod c19;
 mod c20;
+mod cs;
 mod dl;
 mod life;
 mod ls;
@@ -77,6 +78,7 @@ fn main() {
         "MD" => md::replay(&cases, &mut rep),
         "DL" => dl::replay(&cases, &mut rep),
         "LS" => ls::replay(&cases, &mut rep),
+        "CS" => cs::replay(&cases, &mut rep),
         p => tool_error(&format!("no replay driver for {p}")),
       }
       rep.write(&args[4]);
